@@ -28,6 +28,16 @@ const (
 	kCSet  = "cset"  // set([1]) then clear()
 )
 
+// containers made inside the module FROM already frozen host values, and a
+// dict whose entries overflow one bucket chain
+const (
+	kFStruct = "fstruct" // hfs + struct(...)   (hfs: a frozen struct supplied by the host)
+	kFTuple  = "ftuple"  // hft + (...,)
+	kFList   = "flist"   // hfl + [1]
+	kFDict   = "fdict"   // hfd | {"a": 1}
+	kBigDict = "bigdict" // {64*i: [i] for i in range(12)}: 12 entries in one chain of the table
+)
+
 func leafKind(k string) bool {
 	return k == kEList || k == kEDict || k == kESet || k == kCList || k == kCDict || k == kCSet
 }
@@ -38,7 +48,7 @@ func leafKind(k string) bool {
 var coreKinds = []string{kList, kDict, kDictK, kSet, kTuple, kStruct, kFnDef, kClosure, kMethod, kHostList}
 var coreAndEmptyKinds = append(append([]string{}, coreKinds...), kEList, kEDict, kESet)
 
-var allKinds = []string{kList, kDict, kDictK, kSet, kTuple, kStruct, kFnDef, kClosure, kMethod, kHostList, kEList, kEDict, kESet, kCList, kCDict, kCSet}
+var allKinds = []string{kList, kDict, kDictK, kSet, kTuple, kStruct, kFnDef, kClosure, kMethod, kHostList, kEList, kEDict, kESet, kCList, kCDict, kCSet, kFStruct, kFTuple, kFList, kFDict, kBigDict}
 
 type Node struct {
 	Kind string `json:"kind"`
@@ -52,14 +62,16 @@ type Graph struct {
 }
 
 func mutableKind(k string) bool {
-	return k == kList || k == kDict || k == kDictK || k == kSet || k == kHostList || leafKind(k)
+	return k == kList || k == kDict || k == kDictK || k == kSet || k == kHostList || leafKind(k) || k == kFList || k == kFDict || k == kBigDict
 }
 
 // hard: children are fixed when the node is created.
-func hardKind(k string) bool { return k == kTuple || k == kStruct || k == kFnDef || k == kMethod }
+func hardKind(k string) bool {
+	return k == kTuple || k == kStruct || k == kFnDef || k == kMethod || k == kFStruct || k == kFTuple
+}
 
 // flagless: Freeze has no visited flag on this kind.
-func flaglessKind(k string) bool { return k == kTuple || k == kFnDef || k == kClosure }
+func flaglessKind(k string) bool { return k == kTuple || k == kFnDef || k == kClosure || k == kFTuple }
 
 func (g *Graph) String() string {
 	var sb strings.Builder
@@ -117,7 +129,7 @@ func (g *Graph) hashable(i int, seen map[int]bool) bool {
 	switch n.Kind {
 	case kFnDef, kClosure, kMethod:
 		return true
-	case kTuple, kStruct:
+	case kTuple, kStruct, kFTuple, kFStruct:
 		for _, k := range n.Kids {
 			if !g.hashable(k, seen) {
 				return false
@@ -164,7 +176,7 @@ func (g *Graph) topo() (order []int, ok bool) {
 func (g *Graph) valid() bool {
 	for i, n := range g.Nodes {
 		switch n.Kind {
-		case kTuple, kStruct, kFnDef, kClosure:
+		case kTuple, kStruct, kFnDef, kClosure, kFTuple, kFStruct:
 			if len(n.Kids) == 0 {
 				return false
 			}
@@ -255,7 +267,7 @@ func (g *Graph) freezeOverflows() bool { return g.cycleThrough(flaglessKind, tru
 // structCycle: a cycle through a struct anywhere in the graph; printing any
 // value on it recurses without bound (Struct.String has no cycle guard).
 func (g *Graph) structCycle() bool {
-	return g.cycleThrough(func(k string) bool { return k == kStruct }, false, false)
+	return g.cycleThrough(func(k string) bool { return k == kStruct || k == kFStruct }, false, false)
 }
 
 var kindIndex = func() map[string]int {
@@ -366,7 +378,7 @@ func enumGraphs(n, maxKids, maxEdges int, kinds []string, f func(g *Graph)) {
 			if leafKind(k) && len(ch) != 0 {
 				continue
 			}
-			if (k == kTuple || k == kStruct || k == kFnDef || k == kClosure) && len(ch) == 0 {
+			if (k == kTuple || k == kStruct || k == kFnDef || k == kClosure || k == kFTuple || k == kFStruct) && len(ch) == 0 {
 				continue
 			}
 			g.Nodes[i].Kids = ch
@@ -392,9 +404,9 @@ func enumGraphs(n, maxKids, maxEdges int, kinds []string, f func(g *Graph)) {
 // mutation statement on a kid value named v (inside function bodies)
 func mutStmt(kind, v string) string {
 	switch kind {
-	case kList, kHostList, kEList, kCList:
+	case kList, kHostList, kEList, kCList, kFList:
 		return v + ".append(9)"
-	case kDict, kDictK, kEDict, kCDict:
+	case kDict, kDictK, kEDict, kCDict, kFDict, kBigDict:
 		return v + "[9] = 9"
 	case kSet, kESet, kCSet:
 		return v + ".add(9)"
@@ -404,9 +416,9 @@ func mutStmt(kind, v string) string {
 
 func methodName(kind string) string {
 	switch kind {
-	case kList, kHostList, kEList, kCList:
+	case kList, kHostList, kEList, kCList, kFList:
 		return "append"
-	case kDict, kDictK, kEDict, kCDict:
+	case kDict, kDictK, kEDict, kCDict, kFDict, kBigDict:
 		return "setdefault"
 	case kSet, kESet, kCSet:
 		return "add"
@@ -443,6 +455,24 @@ func (g *Graph) Program(outcome string, helperSrc string) string {
 			b = append(b, name(i)+` = {"a": 1}`, name(i)+".clear()")
 		case kCSet:
 			b = append(b, name(i)+" = set([1])", name(i)+".clear()")
+		case kFList:
+			b = append(b, name(i)+" = hfl + [1]")
+		case kFDict:
+			b = append(b, name(i)+` = hfd | {"a": 1}`)
+		case kBigDict:
+			b = append(b, name(i)+" = {64 * i: [i] for i in range(12)}")
+		case kFTuple:
+			parts := []string{}
+			for _, k := range nd.Kids {
+				parts = append(parts, name(k))
+			}
+			b = append(b, name(i)+" = hft + ("+strings.Join(parts, ", ")+",)")
+		case kFStruct:
+			parts := []string{}
+			for j, k := range nd.Kids {
+				parts = append(parts, fmt.Sprintf("%c = %s", 'a'+j, name(k)))
+			}
+			b = append(b, name(i)+" = hfs + struct("+strings.Join(parts, ", ")+")")
 		case kTuple:
 			parts := []string{"1"}
 			for _, k := range nd.Kids {
@@ -483,9 +513,9 @@ func (g *Graph) Program(outcome string, helperSrc string) string {
 	for i, nd := range g.Nodes {
 		for _, k := range nd.Kids {
 			switch nd.Kind {
-			case kList, kHostList:
+			case kList, kHostList, kFList:
 				b = append(b, fmt.Sprintf("%s.append(%s)", name(i), name(k)))
-			case kDict:
+			case kDict, kFDict, kBigDict:
 				b = append(b, fmt.Sprintf(`%s["k%d"] = %s`, name(i), k, name(k)))
 			case kDictK:
 				b = append(b, fmt.Sprintf(`%s[(%s,)] = 1`, name(i), name(k)))
